@@ -41,11 +41,38 @@ class DecodeItemHeader:
     def raises(self, data, text_pos):
         return {ValueError: data[text_pos] // 4 != self.format_code}
 
+    def samples(rnd, cls, k):
+        for _ in range(30):
+            pos = rnd.choice((0, 0, 2, 5))
+            fc = cls.format_code if rnd.random() < 0.7 else rnd.randint(0, 63)
+            body = bytes([fc * 4 + k]) + bytes(rnd.choice((0, 1, 0xFF, rnd.getrandbits(8))) for _ in range(k + rnd.choice((0, 4))))
+            yield {"self": object.__new__(cls), "data": bytes(rnd.getrandbits(8) for _ in range(pos)) + body, "text_pos": pos}
+
     def ensures(self, data, text_pos, result, case):
         k = case["k"]
         n = result[2]
         return (result[0] == text_pos + 1 + k and result[1] == self.format_code and 0 <= n < 256 ** k
                 and seq_eq_at(data, text_pos, e5.header(self.format_code, n, k)))
+
+
+def _decode_samples(rnd, cls, k, payloads, make_self):
+    """Concrete inputs for the cross-check of decode contracts: valid items with k length bytes at a random offset."""
+    import spec.e5ref as R
+    for payload in payloads:
+        prefix = bytes(rnd.getrandbits(8) for _ in range(rnd.choice((0, 1, 3))))
+        tail = bytes(rnd.getrandbits(8) for _ in range(rnd.choice((0, 2))))
+        try:
+            item = R.header(cls.format_code, len(payload), k) + payload
+        except R.E5Error:
+            continue
+        yield {"self": make_self(), "data": prefix + item + tail, "start": len(prefix)}
+
+
+def _obj(cls, **fields):
+    o = object.__new__(cls)
+    for f, v in fields.items():
+        object.__setattr__(o, f, v)
+    return o
 
 
 # =============================================================================================== numbers
@@ -207,6 +234,19 @@ class NumDecode:
         # finite decoded floats pass the bounds check: lemma LemmaFloatBounds/decode-range (proved separately)
         return [LF.range_axiom(cls)] if cls._base_type is float else []
 
+    def samples(rnd, cls, k):
+        import struct
+        size = cls._bytes
+        pls = [b"", bytes(size), b"\xff" * size * 2]
+        for _ in range(12):
+            n = rnd.randint(0, 4)
+            if cls._base_type is float:
+                vals = [rnd.choice((0.0, 1.5, -2.25, 1e10, cls._max, cls._min, 1e-40)) for _ in range(n)]
+                pls.append(b"".join(struct.pack(">" + cls._struct_code, v) for v in vals))
+            else:
+                pls.append(bytes(rnd.getrandbits(8) for _ in range(n * size)))
+        return _decode_samples(rnd, cls, k, pls, lambda: _obj(cls, value=[1] if cls._base_type is int else [1.0], count=rnd.choice((-1, -1, 0, 2, 100))))
+
 
 # =============================================================================================== text
 import secsgem.common.codec_jis_x_0201 as JIS
@@ -298,6 +338,10 @@ class TextDecode:
         return (result == start + 1 + k + n and len(self.value) == n
                 and forall(0, n, lambda j: ord(self.value[j]) == e5.text_char(fc, data[start + 1 + k + j])))
 
+    def samples(rnd, cls, k):
+        pls = [b"", b"A", bytes(range(256)), b"\x5c\x7e\xa1\xdf\xff\x00"] + [bytes(rnd.getrandbits(8) for _ in range(rnd.randint(0, 9))) for _ in range(8)]
+        return _decode_samples(rnd, cls, k, pls, lambda: _obj(cls, value="old", count=rnd.choice((-1, 0, 3, 1000))))
+
 
 # =============================================================================================== binary
 @contract("secsgem.secs.variables.binary:Binary.set", "C01")
@@ -362,6 +406,10 @@ class BinaryDecode:
         n = e5.uint_at(data, start + 1, k)
         return (result == start + 1 + k + n and len(self.value) == n
                 and forall(0, n, lambda j: self.value[j] == data[start + 1 + k + j]))
+
+    def samples(rnd, k):
+        pls = [b"", b"\x00", bytes(range(256))] + [bytes(rnd.getrandbits(8) for _ in range(rnd.randint(0, 9))) for _ in range(8)]
+        return _decode_samples(rnd, V.Binary, k, pls, lambda: _obj(V.Binary, value=bytearray(b"old"), count=rnd.choice((-1, 0, 3, 1000))))
 
 
 # =============================================================================================== boolean
@@ -445,3 +493,7 @@ class BooleanDecode:
 
     def loops(k):
         return {1: Loop(a=BooleanDecode.inv_1, types={"result": ListOf(Bool)})}
+
+    def samples(rnd, k):
+        pls = [b"", b"\x00", b"\x01\x00\xff\x02"] + [bytes(rnd.choice((0, 1, 2, 255)) for _ in range(rnd.randint(0, 7))) for _ in range(8)]
+        return _decode_samples(rnd, V.Boolean, k, pls, lambda: _obj(V.Boolean, value=[True], count=rnd.choice((-1, 0, 3, 1000))))
